@@ -18,7 +18,9 @@ Inductive rshape :=                    (* return shapes *)
 
 Inductive intmode := IDefault | IOn | IOff.     (* none / #[int_result] / #[no_int_result] on the method *)
 
-Record method := mkm { m_recv : recv; m_int : intmode; m_ret : rshape; m_retleaf : leaf; m_args : list (ashape * leaf) }.
+(* m_vtbl_only: #[vtbl_only] — the method gets its vtable slot and wrapper like any other, but the trait re-implementation on the opaque
+   object does not forward it (calls through the object run the trait's default body; C01 excludes such methods) *)
+Record method := mkm { m_recv : recv; m_int : intmode; m_ret : rshape; m_retleaf : leaf; m_args : list (ashape * leaf); m_vtbl_only : bool }.
 Record trait_def := mkt { t_int : bool; t_methods : list method }.
 
 (* ---- glue IR ----------------------------------------------------------------------------------------- *)
@@ -47,7 +49,8 @@ Record irm := mkir {
   ir_i_guard : bool;                 (* let __ctx = ...clone() held across a consuming call *)
   ir_i_convs : list conv;            (* per trait argument: how the trait impl turns the Rust value into the C value *)
   ir_i_okout : bool;
-  ir_i_tail : itail
+  ir_i_tail : itail;
+  ir_i_present : bool                (* false for #[vtbl_only] methods: no forwarding method in the trait re-implementation *)
 }.
 
 (* ---- the generator -------------------------------------------------------------------------------------- *)
@@ -93,7 +96,7 @@ Definition gen_method (t : trait_def) (pos : nat) (m : method) : irm :=
                    else (base_args, CResultC l 14, true, WRetInto, false, IRetInto)
     end in
   mkir pos pos pos (m_recv m) cargs cret (m_recv m) (map arg_wconv (m_args m)) mapped wt
-       (m_recv m) (match m_recv m with ROwn => true | _ => false end) (map arg_iconv (m_args m)) okout it.
+       (m_recv m) (match m_recv m with ROwn => true | _ => false end) (map arg_iconv (m_args m)) okout it (negb (m_vtbl_only m)).
 
 (* the vtable: one entry per method, in declaration order *)
 Fixpoint gen_from (t : trait_def) (pos : nat) (ms : list method) : list irm :=
@@ -119,8 +122,10 @@ Definition enc_irm (pos : nat) (r : irm) : list Z :=
   ++ [enc_recv (ir_w_access r); bz (Nat.eqb (ir_w_target r) pos) (* calls <ObjType as Trait>::<own name> *); 0 (* no ctx clone for unwrapped returns *);
       nz (length (ir_w_convs r))] ++ map enc_conv (ir_w_convs r)
   ++ [1; bz (ir_w_mapped r); enc_wtail (ir_w_tail r); 0]
-  ++ [bz (Nat.eqb (ir_i_fetch r) pos) (* fetches the slot of its own name *); enc_recv (ir_i_cont r); bz (ir_i_guard r); 1; nz (length (ir_i_convs r))]
-  ++ map enc_conv (ir_i_convs r) ++ [bz (ir_i_okout r); enc_itail (ir_i_tail r); 0].
+  ++ (if ir_i_present r then
+        [bz (Nat.eqb (ir_i_fetch r) pos) (* fetches the slot of its own name *); enc_recv (ir_i_cont r); bz (ir_i_guard r); 1; nz (length (ir_i_convs r))]
+        ++ map enc_conv (ir_i_convs r) ++ [bz (ir_i_okout r); enc_itail (ir_i_tail r); 0]
+      else [0; 9; 9; 9; 0; 9; 9; 7] (* what harness/gen prints when the re-implementation has no such method *)).
 
 Fixpoint enc_all (pos : nat) (l : list irm) : list (list Z) :=
   match l with [] => [] | r :: t => enc_irm pos r :: enc_all (S pos) t end.
@@ -150,7 +155,8 @@ Definition dec_method (row : list Z) : option method :=
   | r :: im :: rt :: rl :: n :: args =>
       (* bit 2 (+4): the method has a default body; bit 3 (+8): explicit lifetime generics — neither changes the generated glue *)
       let im := im mod 4 in
-      Some (mkm (dec_recv r) (if im =? 1 then IOn else if im =? 2 then IOff else IDefault) (dec_rshape rt) (rl mod 9) (dec_args (zn n) args))
+      (* receiver field: low 2 bits = receiver kind, bit 2 (+4) = #[vtbl_only] *)
+      Some (mkm (dec_recv (r mod 4)) (if im =? 1 then IOn else if im =? 2 then IOff else IDefault) (dec_rshape rt) (rl mod 9) (dec_args (zn n) args) (4 <=? r))
   | _ => None
   end.
 Fixpoint dec_methods (rows : list (list Z)) : option (list method) :=
